@@ -28,6 +28,9 @@ What is transcribed
 * `Share.sift`, `copy`/`copyDataDict` (shallow), `reorder` (with repair D11h; as found it always
   raised TypeError), the `data` setter (replaces the record and stamps), `truth`, and the unit
   record `changeUnit/createUnit/fetchUnit` (a second `Data`; `Share(unit=…)` with repair D11g).
+* Identity of the sub-objects is observable (a caller may hold `share.deck`, `share.data`, the unit
+  record): `deckId` never changes, `dataId` changes only when a whole record is assigned, the
+  unit record is made once (`unit = none → some`) and kept.
 * An operation that raises returns the state *as mutated so far* together with the error.
 Core Lean only.
 -/
@@ -200,6 +203,8 @@ structure World where
   truth : Val := .none        -- `._truth`
   unit : Option Data := none  -- `._unit`
   pool : List (List Int) := [[], [], [], []]   -- the caller's mutable objects (ids 0..3)
+  dataId : Nat := 0           -- identity of the `Data` record `share.data` (a new one per `share.data = …`)
+  deckId : Nat := 0           -- identity of `share.deck`: one Deck for the life of the share
 deriving DecidableEq, Repr
 
 def init : World :=
@@ -378,7 +383,7 @@ def step (w : World) : Op → World × Out
   | .setData ps =>
     -- `share.data = Data(ps)`: the new record is built first (may raise), then installed and stamped
     match changeLoop ⟨[], []⟩ ps with
-    | (d, none) => (restamp { w with data := d }, .unit)
+    | (d, none) => (restamp { w with data := d, dataId := w.dataId + 1 }, .unit)
     | (_, some e) => (w, .err e)
   | .setTruth v => ({ w with truth := v }, .unit)
   | .getTruth => (w, .val w.truth)
